@@ -228,44 +228,44 @@ def r4(ctx):
         rm = [bb for bb, t in b.calls(REMOVE)]
         ctx.inst(R, "on_close:listener-removes-children", len(rm) >= 1, b.span, f"{len(rm)} child removal site(s) in the listener arm" if rm else
                  "the listener arm no longer removes unaccepted children")
-        # wildcard-awareness
+        # wildcard-awareness (in on_close and in the closures of its iterator chains)
         LOCAL = "field:turmoil_net::kernel::tcp::on_close::Action::local"
-        wte, wfe = [], []
-        for sbb, te, fe, o in guards_on(b, lambda o: True):
-            at = Slicer(ctx.w).atoms(b, b.term(sbb)["d"])
-            if "call:std::net::IpAddr::is_unspecified" in at:
-                # the switch tests `wildcard` (possibly negated): edges where wildcard is FALSE
-                oo = origin(b, b.term(sbb)["d"])
-                neg = False
-                while oo["k"] == "not":
-                    neg = not neg
-                    oo = oo["a"]
-                tt, ft = bool_edges(b, sbb, b.term(sbb))
-                if neg:
-                    wfe.append((sbb, tt))
-                else:
-                    if ft is not None:
-                        wfe.append((sbb, ft))
         n = 0
-        for bb, t in b.calls():
-            if is_macro_noise(t) or not t["args"]:
-                continue
-            f = t["f"]
-            if re.search(r"SocketAddr::(port|ip)$|IpAddr::is_unspecified$|::emit$|Clone>::clone$", f):
-                continue
-            uses_local = False
-            for a in t["args"]:
-                at = Slicer(ctx.w, through_calls=True, stop_calls=re.compile(r"^(?!std::net::SocketAddr::ip$).*")).atoms(b, a)
-                if LOCAL in at and "call:std::net::SocketAddr::port" not in at:
-                    uses_local = True
-            if not uses_local:
-                continue
-            # only uses inside the CloseListener region matter: reachable from the CloseListener downcast
-            n += 1
-            ok = bool(wfe) and b.dominated_by_any(bb, edges=wfe)
-            ctx.inst(R, f"on_close:wildcard-aware:{f.rsplit('::', 1)[-1]}#{n}", ok, t["s"],
-                     "listener address used to select children only when the listener is not a wildcard bind" if ok else
-                     f"`{f}` selects children by the listener's literal address without the wildcard test: children of a 0.0.0.0 / :: listener are missed and orphaned")
+        for fb in ctx.w.family(b.id):
+            wfe = []
+            for sbb, te, fe, o in guards_on(fb, lambda o: True):
+                at = Slicer(ctx.w).atoms(fb, fb.term(sbb)["d"])
+                if "call:std::net::IpAddr::is_unspecified" in at and LOCAL in at:
+                    oo = origin(fb, fb.term(sbb)["d"])
+                    neg = False
+                    while oo["k"] == "not":
+                        neg = not neg
+                        oo = oo["a"]
+                    tt, ft = bool_edges(fb, sbb, fb.term(sbb))
+                    if neg:
+                        wfe.append((sbb, tt))
+                    elif ft is not None:
+                        wfe.append((sbb, ft))
+            for bb, t in fb.calls():
+                if is_macro_noise(t) or not t["args"]:
+                    continue
+                f = t["f"]
+                if re.search(r"SocketAddr::(port|ip)$|IpAddr::is_unspecified$|::emit$|Clone>::clone$", f):
+                    continue
+                uses_local = False
+                for a in t["args"]:
+                    at = Slicer(ctx.w, through_calls=True, stop_calls=re.compile(r"^(?!std::net::SocketAddr::ip$).*")).atoms(fb, a)
+                    if LOCAL in at and "call:std::net::SocketAddr::port" not in at:
+                        uses_local = True
+                if not uses_local:
+                    continue
+                if ctx.w.bodies.get(f) is not None or closure_args(fb, t):
+                    continue     # passing `local` on to an in-repo closure / iterator adaptor: judged where it is finally used
+                n += 1
+                ok = bool(wfe) and fb.dominated_by_any(bb, edges=wfe)
+                ctx.inst(R, f"on_close:wildcard-aware:{f.rsplit('::', 1)[-1]}#{n}", ok, t["s"],
+                         "listener address used to select children only when the listener is not a wildcard bind" if ok else
+                         f"`{f}` selects children by the listener's literal address without the wildcard test: children of a 0.0.0.0 / :: listener are missed and orphaned")
     kc = ctx.body(R, "turmoil_net::kernel::Kernel::close")
     if kc:
         oc = list(kc.calls("turmoil_net::kernel::tcp::on_close"))
